@@ -289,9 +289,12 @@ def run(ctx):
         ("efarr", "farr[1, 0]", lambda v: v["farr"][2]),
     ]
     SW = [("eswu", "un", [("int32 i", "i + 1"), ("string s", "0 - 1")], lambda v: (v["un"][1] + 1) if v["un"][0] == 0 else -1),
-          ("eswo", "opt", [("int32 x", "x * 2"), ("_", "7")], lambda v: 7 if v["opt"] is None else v["opt"][1] * 2)]
-    emodel = ("EInner: !record\n  fields:\n    p: int32\n    q: int32\nEx: !record\n  fields:\n    ia: int32\n    ib: int32\n    ic: int32\n    da: float64\n    db: float64\n    dc: float64\n"
-              "    vec: int32*\n    arr: 'int32[row, col]'\n    farr: 'int32[2, 2]'\n    mp: string->int32\n    inner: EInner\n    un: [int32, string]\n    opt: int32?\n  computedFields:\n")
+          ("eswo", "opt", [("int32 x", "x * 2"), ("_", "7")], lambda v: 7 if v["opt"] is None else v["opt"][1] * 2),
+          # a union defined by a named type (the generated union class carries the alias name), and a nullable union
+          ("eswn", "nun", [("int32 i", "i + 2"), ("string s", "0 - 2")], lambda v: (v["nun"][1] + 2) if v["nun"][0] == 0 else -2),
+          ("eswnu", "nou", [("int32 i", "i + 3"), ("string s", "0 - 3"), ("_", "9")], lambda v: 9 if v["nou"] is None else ((v["nou"][1] + 3) if v["nou"][0] == 0 else -3))]
+    emodel = ("ENamedUn: [int32, string]\nEInner: !record\n  fields:\n    p: int32\n    q: int32\nEx: !record\n  fields:\n    ia: int32\n    ib: int32\n    ic: int32\n    da: float64\n    db: float64\n    dc: float64\n"
+              "    vec: int32*\n    arr: 'int32[row, col]'\n    farr: 'int32[2, 2]'\n    mp: string->int32\n    inner: EInner\n    un: [int32, string]\n    opt: int32?\n    nun: ENamedUn\n    nou: [null, int32, string]\n  computedFields:\n")
     for nme, src, _ in EXPRS:
         emodel += "    %s: '%s'\n" % (nme, src.replace("'", "''"))
     for nme, tgt, cases, _ in SW:
@@ -324,7 +327,9 @@ def run(ctx):
     defs += [Rec("EInner", [("p", P("int32")), ("q", P("int32"))]),
              Rec("Ex", [("ia", P("int32")), ("ib", P("int32")), ("ic", P("int32")), ("da", P("float64")), ("db", P("float64")), ("dc", P("float64")), ("vec", V(P("int32"))),
                         ("arr", A(P("int32"), (("row", None), ("col", None)))), ("farr", A(P("int32"), ((None, 2), (None, 2)))), ("mp", M(P("string"), P("int32"))),
-                        ("inner", N("EInner")), ("un", U(((None, P("int32")), (None, P("string"))))), ("opt", Opt(P("int32")))]),
+                        ("inner", N("EInner")), ("un", U(((None, P("int32")), (None, P("string"))))), ("opt", Opt(P("int32"))),
+                        ("nun", N("ENamedUn")), ("nou", U(((None, P("int32")), (None, P("string"))), True))]),
+             Al("ENamedUn", U(((None, P("int32")), (None, P("string"))))),
              Proto("PEx", [("items", S(N("Ex")))])]
     hp = Pkg("Cf", defs)
     codec = Codec(hp)
@@ -393,8 +398,10 @@ def run(ctx):
         inner = [r.randint(-100, 100), r.randint(-100, 100)]
         un = (0, r.randint(-100, 100)) if r.random() < 0.5 else (1, "txt")
         opt = None if r.random() < 0.4 else (0, r.randint(-100, 100))
-        items.append([ia, ib, ic, da, db, dc, vec, ((2, 3), arr), ((2, 2), farr), mp, inner, un, opt])
-        envs.append(dict(ia=ia, ib=ib, ic=ic, da=da.value, db=db.value, dc=dc.value, vec=vec, arr=arr, farr=farr, mp=mp, inner=inner, un=un, opt=opt))
+        nun = (0, r.randint(-1000, 1000)) if r.random() < 0.5 else (1, "t%d" % r.randint(0, 9))
+        nou = None if r.random() < 0.34 else ((0, r.randint(-1000, 1000)) if r.random() < 0.5 else (1, "u%d" % r.randint(0, 9)))
+        items.append([ia, ib, ic, da, db, dc, vec, ((2, 3), arr), ((2, 2), farr), mp, inner, un, opt, nun, nou])
+        envs.append(dict(ia=ia, ib=ib, ic=ic, da=da.value, db=db.value, dc=dc.value, vec=vec, arr=arr, farr=farr, mp=mp, inner=inner, un=un, opt=opt, nun=nun, nou=nou))
     pr, rows_cpp, res, rows_py = run_both("PEx", items)
     if rows_cpp is None or rows_py is None:
         ctx.violation("driver-failed:%s" % ("cpp" if rows_cpp is None else "py"), "Ex: computed-field driver failed: %s %s" % (pr.stderr[-300:], res.get("error")), {"case_dir": root})
